@@ -138,7 +138,7 @@ where
     {
         let (data, scratch) = self.take_mat_znx(
             infos.n().into(),
-            infos.dnum().0.div_ceil(infos.dsize().0) as usize,
+            infos.dnum().into(),
             infos.rank_in().into(),
             (infos.rank_out() + 1).into(),
             infos.size(),
